@@ -75,6 +75,12 @@ ORSWOT_REWRITES = [
     (r"^mod tests \{\n", "mod tests {\n    #[allow(unused_imports)]\n    use crate::vcoll_vec as vec;\n", 1),
 ]
 
+# The native replay runs as a `cargo test` (Kani playback), i.e. with cfg(test) set, under which the crate compiles its
+# forgiveness period to ZERO.  The replay must exercise the configuration every real build (and the solver build) uses.
+ORSWOT_REPLAY_REWRITES = [
+    (r"pub const FORGIVENESS_PERIOD: Duration = if cfg!\(test\) \{", "pub const FORGIVENESS_PERIOD: Duration = if cfg!(verif_never_set) {", 1),
+]
+
 VCOLL_CFG = """// generated per run: container bounds of this encoding
 pub const KEYS: usize = {keys};
 pub const NODES: usize = {nodes};
@@ -111,7 +117,7 @@ def build_crdt_vcoll(ws, mode, harness_files, keys, nodes, vcap=None, name="crdt
     ts_rules = [REPLAY_CLOCK_RULE] if (mode == "replay" and timestamp_harness) else []
     mounted.append(dcv.mount("datacake-crdt/src/timestamp.rs", os.path.join(d, "src/timestamp.rs"), rewrites=ts_rules,
                              append=[os.path.join(ENC, h) for h in timestamp_harness]))
-    rules = ORSWOT_REWRITES if mode == "solve" else []
+    rules = ORSWOT_REWRITES if mode == "solve" else ORSWOT_REPLAY_REWRITES
     mounted.append(dcv.mount("datacake-crdt/src/orswot.rs", os.path.join(d, "src/orswot.rs"), rewrites=rules,
                              append=[os.path.join(ENC, h) for h in harness_files],
                              subst={"@@UNWIND@@": unwind}))
@@ -218,6 +224,14 @@ ACTOR_REWRITES = [
 ]
 
 
+# replay build = `cargo test`: keep the crate's own cfg(test) items (which need unmounted modules / tracing) out of it
+ACTOR_REPLAY_REWRITES = [
+    (r"^#\[cfg\(test\)\]\nmod tests \{", "#[cfg(verif_never_set)]\nmod tests {", 1),
+]
+STORAGE_REPLAY_REWRITES = [
+    (r"#\[cfg\(any\(test, feature = \"test-utils\", feature = \"test-suite\"\)\)\]", "#[cfg(any(feature = \"test-utils\", feature = \"test-suite\"))]", 1),
+]
+
 STORAGE_REWRITES = [
     # BulkMutationError carries the ids the store wrote in a heap Vec; under symbolic failure schedules the merged heap
     # shapes do not finish in CBMC -> fixed-capacity IdVec (derefs to &[Key] like the original)
@@ -241,9 +255,9 @@ def build_actor_mount(ws, mode, harness_files, keys, nodes, extra_actor_rewrites
     dcv.write(os.path.join(d, "src/keyspace/mod.rs"), ECV_KEYSPACE_MOD)
     base = "datacake-eventual-consistency/src/"
     mounted.append(dcv.mount(base + "core.rs", os.path.join(d, "src/core.rs")))
-    mounted.append(dcv.mount(base + "storage.rs", os.path.join(d, "src/storage.rs"), rewrites=(STORAGE_REWRITES if mode == "solve" else [])))
+    mounted.append(dcv.mount(base + "storage.rs", os.path.join(d, "src/storage.rs"), rewrites=(STORAGE_REWRITES if mode == "solve" else STORAGE_REPLAY_REWRITES)))
     mounted.append(dcv.mount(base + "keyspace/messages.rs", os.path.join(d, "src/keyspace/messages.rs")))
-    rules = list(ACTOR_REWRITES if mode == "solve" else []) + list(extra_actor_rewrites)
+    rules = list(ACTOR_REWRITES if mode == "solve" else ACTOR_REPLAY_REWRITES) + list(extra_actor_rewrites)
     mounted.append(dcv.mount(base + "keyspace/actor.rs", os.path.join(d, "src/keyspace/actor.rs"), rewrites=rules,
                              append=[os.path.join(ENC, h) for h in harness_files], subst={"@@UNWIND@@": cfg["unwind"]}))
     return d, mounted, cfg
